@@ -24,7 +24,7 @@ var profiles = map[string]Profile{
 		W: map[string]int{"set": 18, "rm": 10, "save": 22, "rollback": 3, "reopen": 8, "load": 8, "prune": 8, "lvfo": 4, "resave": 8}},
 	// C11: balance under ordered insertions and removals
 	"C11": {Name: "C11", MinOps: 30, MaxOps: 150, Keys: 40, EmptyVals: false, ObsEvery: 25,
-		W: map[string]int{"set": 60, "rm": 22, "save": 6, "reopen": 1}},
+		W: map[string]int{"set": 60, "rm": 22, "save": 6, "reopen": 1, "costs": 4}},
 	// C09: rollback / LoadVersionForOverwriting heavy
 	"C09": {Name: "C09", MinOps: 15, MaxOps: 60, Keys: 8, EmptyVals: true, ObsEvery: 5, ToggleFast: false,
 		Initials: []int64{-1, -1, 1, 7},
@@ -55,6 +55,10 @@ var profiles = map[string]Profile{
 	"C17": {Name: "C17", MinOps: 8, MaxOps: 30, Keys: 8, EmptyVals: false, ObsEvery: 0,
 		Initials: []int64{-1, -1, 7},
 		W: map[string]int{"set": 45, "rm": 15, "save": 6, "faults": 8, "faultsave": 8, "faultprune": 4, "rollback": 2, "reopen": 2}},
+	// C10: export / import of any retained version (empty tree, single leaf, inherited root, larger)
+	"C10": {Name: "C10", MinOps: 6, MaxOps: 45, Keys: 9, EmptyVals: true, ObsEvery: 0,
+		Initials: []int64{-1, -1, 1, 7},
+		W: map[string]int{"set": 40, "rm": 16, "save": 16, "rollback": 2, "reopen": 2, "prune": 3, "expimp": 12}},
 	// C08: iterators over every kind of tree state
 	"C08": {Name: "C08", MinOps: 8, MaxOps: 40, Keys: 9, EmptyVals: true, ObsEvery: 0,
 		W: map[string]int{"set": 40, "rm": 18, "save": 10, "rollback": 2, "reopen": 3, "iters": 25}},
@@ -259,6 +263,11 @@ func m1gen(name string) func(r *rand.Rand, tier, id string) Case {
 			p.Order = []string{"asc", "desc", "alt", ""}[r.Intn(4)]
 		}
 		c := genM1(r, p, id)
+		if name == "C11" {
+			// nothing cached: node cache 0, counting wrapper
+			fast := []string{"true", "false"}[r.Intn(2)]
+			c.Cfgs = []string{"cache=0,fast=" + fast + ",flush=100000,sync=false,backend=memdb,wrap=true"}
+		}
 		if name == "C17" {
 			c.Cfgs = wrapConfigs(r, 1, []int{400, 100000})
 		}
